@@ -123,15 +123,15 @@ theorem C25_wtSetToCS_errors {κ} (tfOf : κ → Option Int) (k : κ) (y i : Int
 /-! ## variable-length buckets: the timestamp handed to the replica's writer -/
 
 theorem orig_sec (start ipd k : Int) (h0 : 0 ≤ start) (h1 : start < 18446744073709551616)
-    (hz : (Mkts.Ticks.getTimeFromTicks Mkts.Ticks.rne 0 ipd k).sec = 0) :
-    (Mkts.Ticks.getTimeFromTicks Mkts.Ticks.rne start ipd k).sec = start ∧
-    (Mkts.Ticks.getTimeFromTicks Mkts.Ticks.rne start ipd k).nanos =
-      (Mkts.Ticks.getTimeFromTicks Mkts.Ticks.rne 0 ipd k).nanos := by
+    (hz : (Mkts.Ticks.getTimeFromTicksOld Mkts.Ticks.rne 0 ipd k).sec = 0) :
+    (Mkts.Ticks.getTimeFromTicksOld Mkts.Ticks.rne start ipd k).sec = start ∧
+    (Mkts.Ticks.getTimeFromTicksOld Mkts.Ticks.rne start ipd k).nanos =
+      (Mkts.Ticks.getTimeFromTicksOld Mkts.Ticks.rne 0 ipd k).nanos := by
   have hr : 0 ≤ Mkts.Ticks.roundedOff Mkts.Ticks.rne ipd k ∧
       Mkts.Ticks.roundedOff Mkts.Ticks.rne ipd k < 18446744073709551616 := by
     unfold Mkts.Ticks.roundedOff Mkts.Ticks.toUint64 Mkts.Ticks.two64
     split <;> omega
-  simp only [Mkts.Ticks.getTimeFromTicks, Mkts.Ticks.two64] at hz ⊢
+  simp only [Mkts.Ticks.getTimeFromTicksOld, Mkts.Ticks.two64] at hz ⊢
   constructor
   · omega
   · trivial
